@@ -39,12 +39,13 @@ def write_module(root):
         open(os.path.join(root, rel), "w").write(txt)
 
 
-def run_binary(cwd, root, extra_flags=()):
+def run_binary(cwd, root, extra_flags=(), include=True):
     env = dict(common.GOENV)
     env["NO_COLOR"] = "1"
+    env["PWD"] = cwd            # what a shell (or os/exec with Cmd.Dir) sets: the LOGICAL working directory
     env.pop("GOWORK", None)     # the run started above the module relies on the go.work file written there
     env.pop("GOFLAGS", None)    # -mod=mod is not allowed in workspace mode; the test module has no dependencies
-    cmd = [os.path.join(common.BIN, "nilaway"), "-include-errors-in-files=" + root, "-pretty-print=false"] + list(extra_flags) + ["ex.com/sc/..."]
+    cmd = [os.path.join(common.BIN, "nilaway")] + (["-include-errors-in-files=" + root] if include else []) + ["-pretty-print=false"] + list(extra_flags) + ["ex.com/sc/..."]
     rc, out, err = common.sh2(cmd, cwd=cwd, env=env, timeout=600)
     diags = set()
     cur = None
@@ -131,6 +132,18 @@ def relocation(ctx):
                 results[(root, sub)] = diags
                 if not diags:
                     bad.append("started in %s (module at %s): no diagnostics at all; output: %s" % (cwd, root, text[-400:]))
+        # the same module entered through a symbolic link (the logical path is what $PWD and the go command report):
+        # with the file filter given explicitly, and left at its default (the working directory)
+        link = os.path.join(base, "link")
+        os.symlink(os.path.join(base, "one"), link)
+        lroot = os.path.join(link, "mod")
+        for sub, inc in (("", True), ("", False), ("p/a", True)):
+            rc, diags, text = run_binary(os.path.normpath(os.path.join(lroot, sub)), lroot, include=inc)
+            runs += 1
+            phys = os.path.realpath(lroot)
+            results[("%s (through a symlink, file filter %s)" % (lroot, "explicit" if inc else "default"), sub)] = {(d[0].replace(phys, "<R>"),) + d[1:] for d in diags}
+            if not diags:
+                bad.append("started in %s (a path through a symbolic link to %s, $PWD set to it, file filter %s): no diagnostics at all" % (os.path.join(lroot, sub), phys, "explicit" if inc else "left at its default"))
         ref_key = (os.path.realpath(roots[0]), "")
         ref = results.get(ref_key, set())
         for (root, sub), diags in results.items():
